@@ -1,1 +1,3 @@
 pub mod factor;
+pub mod lattice;
+pub mod relstore;
